@@ -59,6 +59,30 @@ SswuOK(C, Z, u, P) ==
     /\ FMul(C, P[2], P[2]) = SWRhs(C, P[1])
     /\ Sgn0(C.F, C.K, P[2]) = Sgn0(C.F, C.K, u)
 
+\* Elligator 2 (RFC 9380, 6.7.1 and the rational map of Appendix D.1) for a twisted Edwards curve C whose Montgomery
+\* form is K t^2 = s^3 + J s^2 + s;  Z a non-square.  With x1 = -(J/K) / (1 + Z u^2) (or -(J/K) when the denominator
+\* vanishes), g(x) = x^3 + (J/K) x^2 + x / K^2 and x2 = -x1 - J/K:
+\*      x = x1, sgn0(y) = 1   if g(x1) is a square,      x = x2, sgn0(y) = 0   otherwise;      y^2 = g(x)
+\* (s, t) = (x K, y K) and the Edwards point is (v, w) = (s / t, (s - 1) / (s + 1)), or (0, 1) when (s + 1) t = 0.
+Ell2Data(C, J, K, Z, u) ==
+    LET jk == FMul(C, J, FInv(C, K))
+        k2inv == FInv(C, FMul(C, K, K))
+        g(x) == FAdd(C, FAdd(C, FMul(C, x, FMul(C, x, x)), FMul(C, jk, FMul(C, x, x))), FMul(C, x, k2inv))
+        den == FAdd(C, FOne(C), FMul(C, Z, FMul(C, u, u)))
+        x1 == IF den = FZero(C) THEN FNeg(C, jk) ELSE FMul(C, FNeg(C, jk), FInv(C, den))
+        x2 == FSub(C, FNeg(C, x1), jk)
+        sq == TIsSquare(C.F, C.K, g(x1))
+    IN  [x |-> IF sq THEN x1 ELSE x2, gx |-> IF sq THEN g(x1) ELSE g(x2), sgn |-> IF sq THEN 1 ELSE 0]
+Ell2OK(C, J, K, Z, u, P) ==
+    LET dd == Ell2Data(C, J, K, Z, u)
+        s == FMul(C, dd.x, K)
+    IN  /\ FIsElem(C, P[1]) /\ FIsElem(C, P[2])
+        /\ IF dd.gx = FZero(C) \/ s = FNeg(C, FOne(C)) THEN P = <<FZero(C), FOne(C)>>
+           ELSE /\ P[1] # FZero(C)
+                /\ FMul(C, P[2], FAdd(C, s, FOne(C))) = FSub(C, s, FOne(C))
+                /\ LET y == FMul(C, s, FInv(C, FMul(C, P[1], K))) IN          \* t = s / v,  y = t / K
+                     FMul(C, y, y) = dd.gx /\ Sgn0(C.F, C.K, y) = dd.sgn
+
 \* rational isogeny map: coefficient lists, lowest degree first
 PolyEvalF(C, coeffs, x) == FoldLeft(LAMBDA acc, i : FAdd(C, FMul(C, acc, x), coeffs[i]), FZero(C), DownTo(Len(coeffs), 1))
 IsoApply(C, iso, Q) ==
